@@ -69,6 +69,15 @@ func (u *universe) block(i int) (cid.Cid, []byte) {
 		// a block whose BYTES are the multihash digest of DAG block i-3000, sent under an identity multihash: its own
 		// digest then equals that link's digest although the hash functions differ
 		dec, err := mh.Decode(u.d.Blocks[i-3000].Cid.Hash())
+		if err == nil && dec.Code == mh.IDENTITY {
+			// the DAG block is itself under an identity multihash: its digest IS the block, the construction below would
+			// rebuild the genuine block; send an unrelated forged block instead
+			data := []byte(fmt.Sprintf("not the digest of block %d", i-3000))
+			h, _ := mh.Sum(data, mh.SHA2_256, -1)
+			c := cid.NewCidV1(cid.Raw, h)
+			u.byCid[c.String()] = i
+			return c, data
+		}
 		if err == nil {
 			data := append([]byte(nil), dec.Digest...)
 			h, _ := mh.Sum(data, mh.IDENTITY, -1)
